@@ -497,8 +497,12 @@ class JetAnalysis:
                 "'jet_pT_range_' is None. It must be initialized before calling the 'perform_jet_finding' function."
             )
 
+        # the output file holds only the jets of this call: create it empty
+        # here, every jet found below is appended to it
+        with open(output_filename, "w", newline=""):
+            pass
+
         for event, hadron_data_event in enumerate(self.hadron_data_):
-            new_file = False
             event_PseudoJets = self.create_fastjet_PseudoJets(hadron_data_event)
             if (
                 jet_algorithm == fj.ee_genkt_algorithm
@@ -516,8 +520,6 @@ class JetAnalysis:
             if event == 0:
                 print("jet definition is:", jet_definition)
                 print("jet selector is:", jet_selector)
-                # create a new file for the first event in the dataset
-                new_file = True
 
             # perform the jet finding algorithm
             cluster = fj.ClusterSequence(event_PseudoJets, jet_definition)
@@ -541,8 +543,8 @@ class JetAnalysis:
                     only_charged=assoc_only_charged,
                 )
                 jet = self.jet_hole_subtraction(jet, holes_in_jet)
-                new_file = self.write_jet_output(
-                    output_filename, jet, associated_particles, event, new_file
+                self.write_jet_output(
+                    output_filename, jet, associated_particles, event
                 )
 
     def read_jet_data(self, input_filename: str) -> None:
